@@ -65,8 +65,8 @@ var natives = map[string]interface{}{
 	"math.Float64bits": math.Float64bits, "math.Float64frombits": math.Float64frombits, "math.Float32bits": math.Float32bits,
 	"math.Float32frombits": math.Float32frombits, "math.Mod": math.Mod, "math.Log10": math.Log10, "math.Log2": math.Log2,
 	"math.Ldexp": math.Ldexp, "math.Copysign": math.Copysign, "math.Signbit": math.Signbit,
-	"sort.Strings":        sort.Strings,
-	"sort.SearchStrings":  sort.SearchStrings,
+	"sort.Strings":          sort.Strings,
+	"sort.SearchStrings":    sort.SearchStrings,
 	"sort.StringsAreSorted": sort.StringsAreSorted,
 }
 
@@ -295,7 +295,7 @@ func dynamicIntrinsic(fr *frame, fn *ssa.Function, name string, args []value) (v
 
 func init() {
 	for k, v := range map[string]externalFn{
-		"bytes.Equal":                    extBytesEqual,
+		"bytes.Equal": extBytesEqual,
 		"os.Exit": func(fr *frame, args []value) value {
 			// the site of an exit is the chain below the logger
 			f := fr.caller
@@ -307,44 +307,44 @@ func init() {
 			}
 			panic(exitPanic(asInt64(args[0])))
 		},
-		"os.Getenv":                      extGetenv,
-		"os.LookupEnv":                   func(fr *frame, args []value) value { fr.i.x.stub("os.LookupEnv"); return tuple{"", false} },
-		"runtime.GC":                     extNop,
-		"runtime.Gosched":                extNop,
-		"runtime.KeepAlive":              extNop,
-		"runtime.SetFinalizer":           extNop,
-		"runtime/debug.PrintStack":       extNop,
-		"runtime/debug.Stack":            func(fr *frame, args []value) value { return []value(nil) },
-		"runtime.Callers":                func(fr *frame, args []value) value { return 0 },
-		"runtime.Caller":                 func(fr *frame, args []value) value { return tuple{uintptr(0), "", 0, false} },
-		"time.Sleep":                     extNop,
-		"(*sync.Mutex).Lock":             extNop,
-		"(*sync.Mutex).Unlock":           extNop,
-		"(*sync.Mutex).TryLock":          func(fr *frame, args []value) value { return true },
-		"(*sync.RWMutex).Lock":           extNop,
-		"(*sync.RWMutex).Unlock":         extNop,
-		"(*sync.RWMutex).RLock":          extNop,
-		"(*sync.RWMutex).RUnlock":        extNop,
-		"(*sync.WaitGroup).Add":          extNop,
-		"(*sync.WaitGroup).Done":         extNop,
-		"(*sync.WaitGroup).Wait":         extNop,
-		"(*sync.Once).Do":                extOnceDo,
-		"(*sync.Pool).Get":               extPoolGet,
-		"(*sync.Pool).Put":               extNop,
-		"(*strings.Builder).String":      extBuilderString,
-		"(*strings.Builder).copyCheck":   extNop,
-		"strings.Clone":                  func(fr *frame, args []value) value { return args[0] },
-		"fmt.Sprintf":                    extSprintf,
-		"fmt.Sprint":                     extSprint,
-		"fmt.Sprintln":                   extSprintln,
-		"fmt.Errorf":                     extErrorf,
-		"fmt.Println":                    extPrintNop,
-		"fmt.Printf":                     extPrintNop,
-		"fmt.Print":                      extPrintNop,
-		"fmt.Fprintf":                    extPrintNop,
-		"fmt.Fprintln":                   extPrintNop,
-		"fmt.Fprint":                     extPrintNop,
-		"github.com/pkg/errors.callers":  func(fr *frame, args []value) value { return (*value)(nil) },
+		"os.Getenv":                     extGetenv,
+		"os.LookupEnv":                  func(fr *frame, args []value) value { fr.i.x.stub("os.LookupEnv"); return tuple{"", false} },
+		"runtime.GC":                    extNop,
+		"runtime.Gosched":               extNop,
+		"runtime.KeepAlive":             extNop,
+		"runtime.SetFinalizer":          extNop,
+		"runtime/debug.PrintStack":      extNop,
+		"runtime/debug.Stack":           func(fr *frame, args []value) value { return []value(nil) },
+		"runtime.Callers":               func(fr *frame, args []value) value { return 0 },
+		"runtime.Caller":                func(fr *frame, args []value) value { return tuple{uintptr(0), "", 0, false} },
+		"time.Sleep":                    extNop,
+		"(*sync.Mutex).Lock":            extNop,
+		"(*sync.Mutex).Unlock":          extNop,
+		"(*sync.Mutex).TryLock":         func(fr *frame, args []value) value { return true },
+		"(*sync.RWMutex).Lock":          extNop,
+		"(*sync.RWMutex).Unlock":        extNop,
+		"(*sync.RWMutex).RLock":         extNop,
+		"(*sync.RWMutex).RUnlock":       extNop,
+		"(*sync.WaitGroup).Add":         extNop,
+		"(*sync.WaitGroup).Done":        extNop,
+		"(*sync.WaitGroup).Wait":        extNop,
+		"(*sync.Once).Do":               extOnceDo,
+		"(*sync.Pool).Get":              extPoolGet,
+		"(*sync.Pool).Put":              extNop,
+		"(*strings.Builder).String":     extBuilderString,
+		"(*strings.Builder).copyCheck":  extNop,
+		"strings.Clone":                 func(fr *frame, args []value) value { return args[0] },
+		"fmt.Sprintf":                   extSprintf,
+		"fmt.Sprint":                    extSprint,
+		"fmt.Sprintln":                  extSprintln,
+		"fmt.Errorf":                    extErrorf,
+		"fmt.Println":                   extPrintNop,
+		"fmt.Printf":                    extPrintNop,
+		"fmt.Print":                     extPrintNop,
+		"fmt.Fprintf":                   extPrintNop,
+		"fmt.Fprintln":                  extPrintNop,
+		"fmt.Fprint":                    extPrintNop,
+		"github.com/pkg/errors.callers": func(fr *frame, args []value) value { return (*value)(nil) },
 		"encoding/base64.StdEncoding.EncodeToString": nil,
 		"sort.Slice":       extSortSlice,
 		"sort.SliceStable": extSortSlice,
